@@ -203,19 +203,22 @@ PROPS = {
     ),
     'C04': dict(
         tv=dict(module='TokenStreamTrace', cfg='TokenStreamTrace.C04.cfg'),
-        mc=[],
+        mc=[dict(module='LexerMC', tag='g', cfg={'quick': 'LexerMC.generic.quick.cfg', 'thorough': 'LexerMC.generic.thorough.cfg'}),
+            dict(module='LexerMC', tag='e', cfg={'quick': 'LexerMC.expression.quick.cfg', 'thorough': 'LexerMC.expression.thorough.cfg'})],
         corrupt=[('drop a character of a token value', _dropchar('base'))],
         exhaustive_part=True,
     ),
     'C15': dict(
         tv=dict(module='TokenStreamTrace', cfg='TokenStreamTrace.C15.cfg'),
-        mc=[],
+        mc=[dict(module='LexerMC', tag='g', cfg={'quick': 'LexerMC.generic.quick.cfg', 'thorough': 'LexerMC.generic.thorough.cfg'}),
+            dict(module='LexerMC', tag='e', cfg={'quick': 'LexerMC.expression.quick.cfg', 'thorough': 'LexerMC.expression.thorough.cfg'})],
         corrupt=[('drop a character of an output token', _dropchar('out'))],
         exhaustive_part=True,
     ),
     'C12': dict(
         tv=dict(module='TokenStreamTrace', cfg='TokenStreamTrace.C12.cfg'),
-        mc=[],
+        mc=[dict(module='LexerMC', tag='g', cfg={'quick': 'LexerMC.generic.quick.cfg', 'thorough': 'LexerMC.generic.thorough.cfg'}),
+            dict(module='LexerMC', tag='e', cfg={'quick': 'LexerMC.expression.quick.cfg', 'thorough': 'LexerMC.expression.thorough.cfg'})],
         corrupt=[('column of an output token + 1', _bumptok('out', 3))],
         exhaustive_part=True,
     ),
@@ -233,13 +236,13 @@ PROPS = {
     ),
     'C02': dict(
         tv=dict(module='ExprParseTrace', cfg='ExprParseTrace.cfg'),
-        mc=[],
+        mc=[dict(module='ExprGrammarMC', cfg={'quick': 'ExprGrammarMC.quick.cfg', 'thorough': 'ExprGrammarMC.thorough.cfg'})],
         corrupt=[('flip accepted/rejected', _flipoutcome)],
         exhaustive_part=True,
     ),
     'C01': dict(
         tv=dict(module='ExprEvalTrace', cfg='ExprEvalTrace.cfg'),
-        mc=[],
+        mc=[dict(module='ExprGrammarMC', cfg={'quick': 'ExprGrammarMC.quick.cfg', 'thorough': 'ExprGrammarMC.thorough.cfg'})],
         corrupt=[('swap operands of a recorded application', _swapargs)],
         exhaustive_part=True,
         harness_prefix='HARNESS:',
@@ -269,7 +272,7 @@ PROPS = {
     ),
     'C13': dict(
         tv=dict(module='LexerTrace', cfg='LexerTrace.cfg'),
-        mc=[],
+        mc=[dict(module='LexemeMC', tag='g', cfg='LexemeMC.generic.cfg'), dict(module='LexemeMC', tag='e', cfg='LexemeMC.expression.cfg')],
         corrupt=[('token type + 1', _bumptoktype)],
         exhaustive_part=True,
         harness_prefix='HARNESS:',
@@ -282,19 +285,19 @@ PROPS = {
     ),
     'C06': dict(
         tv=dict(module='VariantOpsTrace', cfg='VariantOpsTrace.cfg'),
-        mc=[],
+        mc=[dict(module='VariantOpsMC', cfg='VariantOpsMC.cfg')],
         corrupt=[('result number + 1', _bumpr)],
         exhaustive_part=True,
     ),
     'C07': dict(
         tv=dict(module='VariantConvTrace', cfg='VariantConvTrace.cfg'),
-        mc=[],
+        mc=[dict(module='VariantOpsMC', cfg='VariantOpsMC.cfg')],
         corrupt=[('change the result type', _convtype)],
         exhaustive_part=True,
     ),
     'C08': dict(
         tv=dict(module='FunctionsTrace', cfg='FunctionsTrace.cfg'),
-        mc=[],
+        mc=[dict(module='VariantOpsMC', cfg='VariantOpsMC.cfg')],
         corrupt=[('turn a value outcome into nil', _nilout)],
         exhaustive_part=False,
     ),
